@@ -111,6 +111,22 @@ def compare_paint(ref, got, pts, eps_out, fg_list=FGS, stats=None):
         else:
             undef_g = np.zeros(len(p), bool)
         both = ~(undef_r | undef_g)
+        # a gradient that is undefined at a point paints nothing there.  Near the edge of a focal cone the two sides may
+        # disagree about that at a few points; a candidate (or reference) that is undefined on a large part of what
+        # the other side paints visibly - e.g. a degenerate gradient, r0 = r1 = 0 - is a different picture
+        one_sided = (undef_r ^ undef_g) & np.where(undef_r, c[:, 3] > COL_TOL, hi[:, 3] > COL_TOL)  # visible on the side that is defined
+        if bad is None and one_sided.sum() >= 4 and one_sided.sum() > 0.25 * len(p):
+            i = int(np.argmax(one_sided))
+            bad = {
+                "excess": 1.0,
+                "point": [round(float(p[i][0]), 2), round(float(p[i][1]), 2)],
+                "undefined_side": "candidate" if undef_g[i] else "reference",
+                "points_painted_on_one_side_only": int(one_sided.sum()),
+                "points": int(len(p)),
+                "fg": fg,
+            }
+            worst = max(worst, 1.0)
+            break
         # where alpha is ~0 on both sides rgb is irrelevant
         vis = (hi[:, 3] > COL_TOL) | (c[:, 3] > COL_TOL)
         over = np.maximum(c - hi, lo - c)
